@@ -84,7 +84,7 @@ func writeOverlayJSON(hs *harnessSet, extra map[string]string) (string, error) {
 }
 
 // nativeReplay runs the replay files of one package; returns file -> confirmed|not-reproduced(...)
-func nativeReplay(hs *harnessSet, pkgDir string, files []string, verbose bool) map[string]string {
+func nativeReplay(P *Program, hs *harnessSet, pkgDir string, files []string, verbose bool) map[string]string {
 	res := map[string]string{}
 	// generate the test file
 	var names []string
@@ -111,7 +111,22 @@ func nativeReplay(hs *harnessSet, pkgDir string, files []string, verbose bool) m
 	src = strings.Replace(src, "HARNESSES", sb.String(), 1)
 	testPath := filepath.Join(hs.scratch, strings.ReplaceAll(pkgDir, "/", "__")+"_zz_vx_replay_test.go")
 	os.WriteFile(testPath, []byte(src), 0644)
-	ov, err := writeOverlayJSON(hs, map[string]string{filepath.Join(repoDir, pkgDir, "zz_vx_replay_test.go"): testPath})
+	extra := map[string]string{filepath.Join(repoDir, pkgDir, "zz_vx_replay_test.go"): testPath}
+	needSched := false
+	for _, f := range files {
+		var rf replayFile
+		data, _ := os.ReadFile(f)
+		json.Unmarshal(data, &rf)
+		if len(rf.Sched) > 0 {
+			needSched = true
+		}
+	}
+	if needSched && P != nil {
+		for k, v := range instrumentPackage(P, hs, pkgDir) {
+			extra[k] = v
+		}
+	}
+	ov, err := writeOverlayJSON(hs, extra)
 	if err != nil {
 		for _, f := range files {
 			res[f] = "not-reproduced(overlay error)"
@@ -127,7 +142,18 @@ func nativeReplay(hs *harnessSet, pkgDir string, files []string, verbose bool) m
 	}
 	var remaining []string
 	for _, f := range files {
-		if expect[f].Kind != "hang" {
+		if expect[f].Kind == "race" {
+			// lock-discipline findings: the natively compiled harness runs under the race detector
+			env := append(goEnv(), "VX_REPLAY_FILES="+f, "TZ=UTC", "ELKROOT="+repoDir, "ELKPATH="+repoDir)
+			out, _ := runCmd(repoDir, env, 15*time.Minute, "go", "test", "-race", "-tags", "verif", "-vet=off", "-count=3", "-timeout", "120s", "-modfile="+hs.modfile, "-overlay", ov, "-run", "^TestVXReplay$", "-v", "./"+pkgDir)
+			if strings.Contains(out, "WARNING: DATA RACE") {
+				res[f] = "confirmed"
+			} else {
+				res[f] = "not-reproduced(race detector silent: " + firstLines(lastLines(out, 3), 3) + ")"
+			}
+			continue
+		}
+		if expect[f].Kind != "hang" && expect[f].Kind != "deadlock" {
 			remaining = append(remaining, f)
 			continue
 		}
@@ -253,7 +279,14 @@ func cmdReplay(args []string) int {
 	}
 	defer hs.cleanup()
 	abs, _ := filepath.Abs(args[0])
-	res := nativeReplay(hs, rf.Pkg, []string{abs}, true)
+	var P *Program
+	if len(rf.Sched) > 0 {
+		// schedule replays need the instrumented copy of the package: load the tree
+		if lp, err := loadProgram(hs); err == nil {
+			P = lp
+		}
+	}
+	res := nativeReplay(P, hs, rf.Pkg, []string{abs}, true)
 	fmt.Printf("replay %s: %s\n", args[0], res[abs])
 	if res[abs] == "confirmed" {
 		fmt.Printf("VIOLATION property=%s replay=%s\n", rf.Property, abs)
